@@ -1222,6 +1222,10 @@ def _objects(ctx):
         for case, name, obj, snap0, writable in _HISTORY:
             revalidate(ctx, case, name, obj, snap0, 'at the end of the history of constructions', writable)
     ctx.hist('history_revalidated', len(_HISTORY))
+    from gen import objects as _objs
+    for tname, cnt in sorted(_objs.NUM_TYPES.items()):
+        ctx.hist('numeric_argument_type', f'{tname}:{"many" if cnt > 50 else "some"}')
+    _objs.NUM_TYPES.clear()
     del _HISTORY[:]
     # converters on everything the constructors produced
     conv = _converter_classes()
